@@ -127,7 +127,9 @@ REGISTRY["C05"] = dict(REGISTRY["C01"], **{
                    "voters count recomputed from raw account records, Notary GAS = sum of deposits, no negative balance, per-account "
                    "balance delta = net Transfer events of HALTed executions (OnPersist/PostPersist included); GAS supply <= initial supply + the stored "
                    "GAS-per-block values summed over the heights (every other mint follows a burn); an account changed by block h carries as voter "
-                   "reward checkpoint the cumulative record of the key it votes for now as it stood after block h-1"),
+                   "reward checkpoint the cumulative record of the key it votes for now as it stood after block h-1; on every node after every "
+                   "block the token transfer log (what getnep17transfers serves) holds for every account exactly the NEO/GAS Transfer events of the "
+                   "block's successful executions, in order (log batches hold 3 entries under the verif build tag, 128 in production)"),
     "level_note": "trusted: storage decoders of pkg/core/state used by the monitor; GAS sent to the Notary hash before the contract's activation hard fork is not generated (no contract exists to record a deposit)",
     "design_ref": "DESIGN.md section 2, C05",
     "technique": "deterministic simulation: conservation invariants monitored over seeded histories with restarts (caches rebuilt from storage)",
@@ -136,7 +138,8 @@ REGISTRY["C05"] = dict(REGISTRY["C01"], **{
     "probes": ["delta_checked_blocks", "candidate_with_votes", "voters_present", "notary_deposit_present", "clean_restart",
                "validator_set_change", "election_block", "tx_fault", "op_vote", "op_register", "op_unregister", "op_notary", "op_payContract",
                "op_oracleRequest", "op_oracleResponse", "oracle_response_halt", "oracle_response_fault", "oracle_reward_as_modelled",
-               "gas_issuance_bound_checked", "voter_reward_checkpoint_checked_nonzero"],
+               "gas_issuance_bound_checked", "voter_reward_checkpoint_checked_nonzero",
+               "transfer_log_blocks_compared", "transfer_log_batch_rolled_inside_block"],
 })
 REGISTRY["C03"] = dict(REGISTRY["C01"], **{
     "level_text": ("the same replicated-ledger simulation; the harness keeps per height the flat storage map read from the producer's "
